@@ -280,4 +280,27 @@ def M.defs (m : M) : List Nat := m.out.reverse.filterMap Ev.define?
 /-- the symbols referenced, oldest first -/
 def M.uses (m : M) : List Nat := m.out.reverse.filterMap Ev.use?
 
+/-! ## END: `as.c ProcessFile` / `asmallg.c CodeEND`
+
+`ProcessFile` reads lines `while (!InputEnd() && !ENDOccured)`.  `CodeEND` (a global pseudo-op, so like every ordinary
+statement only executed `if (IfAsm)`) sets `ENDOccured`; right behind the line the loop body flushes the macro processor
+(`if (ENDOccured) while (FirstInputTag) GetNextLine(&OneLine);` - the remaining lines of running macro / REPT expansions
+are dropped without being assembled) and the loop ends.  Nothing of this touches `FirstIfSave`: the balance check of
+`AssembleFile_ExitPass` (`endPass`) sees the IF stack as the END line left it. -/
+
+/-- the pass over a text with END lines: lines are read until the text is exhausted or an END was executed -/
+def runL (cfg : Cfg) : M → List Line → M
+  | m, [] => m
+  | m, .stmt s :: r => runL cfg (step cfg m s) r
+  | m, .endl :: r => if m.ifAsm then m else runL cfg m r
+
+/-- the statements `runL` reads -/
+def readL (cfg : Cfg) : M → List Line → List Stmt
+  | _, [] => []
+  | m, .stmt s :: r => s :: readL cfg (step cfg m s) r
+  | m, .endl :: r => if m.ifAsm then [] else readL cfg m r
+
+/-- a whole pass: `AssembleFile_InitPass`, `ProcessFile`, `AssembleFile_ExitPass` -/
+def passL (cfg : Cfg) (ls : List Line) : M := endPass (runL cfg init ls)
+
 end AslModel.Cond
